@@ -1,0 +1,16 @@
+//go:build verif
+
+package group
+
+import (
+	"github.com/bandprotocol/chain/v3/cylinder/client"
+	"github.com/bandprotocol/chain/v3/cylinder/store"
+	"github.com/bandprotocol/chain/v3/pkg/tss"
+	"github.com/bandprotocol/chain/v3/x/tss/types"
+)
+
+// VerifGetOwnPrivKey exposes the round-3 key derivation / complaint generation of the group
+// worker to the verification harness (build tag "verif").
+func VerifGetOwnPrivKey(dkg store.DKG, groupRes *client.GroupResult) (tss.Scalar, []types.Complaint, error) {
+	return getOwnPrivKey(dkg, groupRes)
+}
